@@ -893,3 +893,48 @@ Lemma timed_total iv rt l u : run init l = Some u ->
 Proof.
   intros H. apply (timed_total_from iv rt l tinit 0%N u tinv_init); [simpl; discriminate|exact H].
 Qed.
+
+(* ---------- (2t) the frr-k8s debouncer with deadlines ---------- *)
+Lemma tkstep_erase iv s x s' : tkstep iv s x = Some s' -> kstep (tk_st s) (snd x) = Some (tk_st s').
+Proof.
+  destruct x as [now e]; unfold tkstep; simpl. destruct (kstep (tk_st s) e) as [s1|]; [|discriminate].
+  destruct e.
+  - intros H; inversion H; reflexivity.
+  - destruct (tk_deadline s) as [d|]; [|discriminate]. destruct (N.leb d now); [|discriminate]. intros H; inversion H; reflexivity.
+Qed.
+
+Lemma tkrun_erase iv s l s' : tkrun iv s l = Some s' -> krun (tk_st s) (map snd l) = Some (tk_st s').
+Proof.
+  revert s; induction l as [|x l IH]; intros s H; simpl in *.
+  - inversion H; reflexivity.
+  - destruct (tkstep iv s x) as [s1|] eqn:E; [|discriminate]. rewrite (tkstep_erase _ _ _ _ E). apply IH, H.
+Qed.
+
+Lemma tk_refines iv l s : tkrun iv tkinit l = Some s -> krun kinit (map snd l) = Some (tk_st s).
+Proof. intros H. exact (tkrun_erase _ _ _ _ H). Qed.
+
+(* notifications never move a pending deadline *)
+Lemma k_deadline_kept iv s l s' d : k_all_notify l = true -> tkrun iv s l = Some s' ->
+  k_timer (tk_st s) = true -> tk_deadline s = Some d -> k_timer (tk_st s') = true /\ tk_deadline s' = Some d.
+Proof.
+  revert s; induction l as [|x l IH]; intros s Hn H T D; simpl in *.
+  - inversion H; subst; auto.
+  - apply andb_true_iff in Hn as [He Hl]. destruct x as [now e]; simpl in He. destruct e; [|discriminate].
+    unfold tkstep in H. simpl in H. rewrite T in H. refine (IH _ Hl H _ _); simpl; auto.
+Qed.
+
+(* the event owed to the first notification of a window, taken at [now] with the timer off, is enabled from
+   [now + iv] on and not before, however many notifications follow *)
+Lemma k_debounce_not_postponed iv s now s1 l s2 :
+  k_timer (tk_st s) = false -> tkstep iv s (now, KNotify) = Some s1 ->
+  k_all_notify l = true -> tkrun iv s1 l = Some s2 ->
+  tk_deadline s2 = Some (now + iv)%N
+  /\ (forall t, (now + iv <= t)%N -> exists s3, tkstep iv s2 (t, KFire) = Some s3 /\ k_out (tk_st s3) = N.succ (k_out (tk_st s2)))
+  /\ (forall t, (t < now + iv)%N -> tkstep iv s2 (t, KFire) = None).
+Proof.
+  intros T0 E Hn R. unfold tkstep in E; simpl in E. rewrite T0 in E. inversion E; subst; clear E.
+  destruct (k_deadline_kept iv _ l s2 (now + iv)%N Hn R eq_refl eq_refl) as [T2 D2].
+  split; [exact D2|]. split.
+  - intros t L. unfold tkstep; simpl. rewrite T2, D2. apply N.leb_le in L. rewrite L. eexists; split; reflexivity.
+  - intros t L. unfold tkstep; simpl. rewrite T2, D2. apply N.leb_gt in L. rewrite L. reflexivity.
+Qed.
